@@ -49,8 +49,9 @@ import (
 )
 
 const (
-	c14IDFresh = "vffresh"
-	c14IDHalt  = "vfhalt"
+	c14IDFresh   = "vffresh"
+	c14IDHalt    = "vfhalt"
+	c14IDChained = "vfchained"
 )
 
 // the structural bound of one request / probe: 10 s, tripled when the binaries carry the race detector
@@ -344,6 +345,7 @@ type c14Req struct {
 
 type c14World struct {
 	R, F, S  *vfnChain
+	C        *vfnChain // 2-of-3 chained chain that nobody drives (stalled at genesis): target of the chained partial flood
 	ports    vfnPorts
 	unknownH []byte
 }
@@ -916,6 +918,7 @@ type c14Env struct {
 	panicSeen map[string]bool
 	recent  []string
 	peerMu   sync.Mutex
+	peerPaused atomic.Bool
 	peerConn *grpc.ClientConn
 	peerStop chan struct{}
 }
@@ -986,7 +989,7 @@ func (e *c14Env) start() error {
 func (e *c14Env) honestStep() {
 	e.peerMu.Lock()
 	defer e.peerMu.Unlock()
-	if e.peerConn == nil {
+	if e.peerConn == nil || e.peerPaused.Load() {
 		return
 	}
 	ctx, cancel := context.WithTimeout(context.Background(), 3*time.Second)
@@ -1079,6 +1082,118 @@ func (e *c14Env) wedged(r *c14Req, idx int, what, handler string) {
 	if err := e.start(); err != nil {
 		e.t.Fatalf("restart after wedge: %v", err)
 	}
+}
+
+// headOf asks the node for the last stored round of a beacon.
+func (e *c14Env) headOf(id string) (uint64, bool) {
+	ctx, cancel := context.WithTimeout(context.Background(), 5*time.Second)
+	defer cancel()
+	st, err := drand.NewProtocolClient(e.tgt.conn).Status(ctx, &drand.StatusRequest{Metadata: &drand.Metadata{BeaconID: id}})
+	if err != nil || st.ChainStore == nil {
+		return 0, false
+	}
+	return st.ChainStore.LastStored, true
+}
+
+// flood: n individually valid partials from ONE member (harness-held share 1) for the rounds head+1..head+4,
+// each with a different previous_signature, while the chain is stalled because the harness withholds the
+// partial that would complete the round.  On the unchained scheme the previous signature is not signed, so
+// one valid partial per round is replayed; on the chained scheme every (round, previous) pair is signed.
+// Afterwards: the usual probes, then the harness completes the round and the node must still aggregate.
+func (e *c14Env) flood(idx int, c *vfnChain, state string, rng *vfRng) {
+	r := &c14Req{Endpoint: "Protocol.PartialBeacon", Class: "valid-partial-flood-one-member", State: state, Handler: "_Protocol_PartialBeacon_Handler"}
+	chained := c.Scheme.Name == crypto.DefaultSchemeID
+	e.peerPaused.Store(true)
+	defer e.peerPaused.Store(false)
+	time.Sleep(400 * time.Millisecond) // a partial of the honest peer may be in flight
+	head, ok := e.headOf(c.ID)
+	if !ok {
+		e.run.Inconclusive("flood: no status for " + c.ID)
+		return
+	}
+	// the node accepts partials up to the round after the one of its clock: wait until head+4 is inside
+	for i := 0; i < 100 && common.CurrentRound(time.Now().Unix(), c.Group.Period, c.Group.GenesisTime)+1 < head+4; i++ {
+		time.Sleep(100 * time.Millisecond)
+	}
+	if h2, _ := e.headOf(c.ID); h2 != head {
+		e.run.Inconclusive(fmt.Sprintf("flood: chain %s moved (%d -> %d) although the harness withholds its partials", c.ID, head, h2))
+		return
+	}
+	n := vfPick(300, 600)
+	r.Msg = &drand.PartialBeaconPacket{Round: head + 1, PreviousSignature: []byte(fmt.Sprintf("x%d distinct previous signatures, rounds %d..%d, signer index 1, chained=%v", n, head+1, head+4, chained)),
+		Metadata: &drand.Metadata{BeaconID: c.ID}}
+	e.logReq(r)
+	md := &drand.Metadata{NodeVersion: c14Version(), BeaconID: c.ID}
+	prot := drand.NewProtocolClient(e.tgt.conn)
+	replay := map[uint64][]byte{}
+	accepted := 0
+	for i := 0; i < n; i++ {
+		round := head + 1 + uint64(i%4)
+		prev := rng.Bytes(32 + rng.Intn(65))
+		var sig []byte
+		var err error
+		if chained {
+			sig, err = c.vfnPartial(1, round, prev)
+		} else if sig = replay[round]; sig == nil {
+			sig, err = c.vfnPartial(1, round, nil)
+			replay[round] = sig
+		}
+		if err != nil {
+			e.run.Note("flood: signing failed: " + err.Error())
+			return
+		}
+		ctx, cancel := context.WithTimeout(context.Background(), c14Bound)
+		_, err = prot.PartialBeacon(ctx, &drand.PartialBeaconPacket{Round: round, PreviousSignature: prev, PartialSig: sig, Metadata: md})
+		cancel()
+		e.run.Count("requests.Protocol.PartialBeacon", 1)
+		e.run.Count("flood_partials_sent", 1)
+		if err == nil {
+			accepted++
+		} else if e.child.dead() {
+			break
+		}
+	}
+	e.run.Count("flood_partials_accepted", int64(accepted))
+	time.Sleep(300 * time.Millisecond) // the aggregator consumes its queue asynchronously
+	if e.died(r, idx) {
+		return
+	}
+	if accepted < n/2 {
+		e.run.Inconclusive(fmt.Sprintf("flood on %s: only %d of %d partials were accepted as valid", c.ID, accepted, n))
+	}
+	for _, name := range []string{"Protocol.PartialBeacon", "Public.PublicRand", "Control.Status", "DKG.Packet", "HTTP"} {
+		if !e.probe(r, idx, name) {
+			return
+		}
+	}
+	// complete the round the flood was camping on
+	stalled := head
+	e.peerPaused.Store(false)
+	dl := time.Now().Add(60 * time.Second)
+	for time.Now().Before(dl) {
+		if c.ID != common.DefaultBeaconID {
+			// nobody else drives this chain: the harness sends the missing partial itself
+			ctx, cancel := context.WithTimeout(context.Background(), 5*time.Second)
+			if last, err := drand.NewPublicClient(e.tgt.conn).PublicRand(ctx, &drand.PublicRandRequest{Metadata: md}); err == nil && last.Round == stalled {
+				if sig, err := c.vfnPartial(1, stalled+1, last.Signature); err == nil {
+					_, _ = prot.PartialBeacon(ctx, &drand.PartialBeaconPacket{Round: stalled + 1, PreviousSignature: last.Signature, PartialSig: sig, Metadata: md})
+				}
+			}
+			cancel()
+		}
+		if e.died(r, idx) {
+			return
+		}
+		if h, ok := e.headOf(c.ID); ok && h > stalled {
+			e.run.Count("rounds_completed_after_flood", 1)
+			e.run.Eval(fmt.Sprintf("%s/%s/%s", r.Endpoint, r.Class, state))
+			return
+		}
+		time.Sleep(300 * time.Millisecond)
+	}
+	e.run.Violation(fmt.Sprintf("C14/service-lost/%s/%s", r.Endpoint, r.Class),
+		fmt.Sprintf("after %d valid partials from one member on %s the node answers probes but no longer aggregates: head stays %d although the missing partial was supplied", n, c.ID, stalled),
+		e.caseInfo(r, idx))
 }
 
 func (e *c14Env) bound(r *c14Req) time.Duration {
@@ -1200,10 +1315,13 @@ func c14Body(t *testing.T, run *vfRun, cleanupsP *[]func()) {
 	if w.S, err = vfnMakeChain(rng, c14IDHalt, crypto.DefaultSchemeID, []string{ports.Priv}, 1, 1*time.Second, 0, now-4); err != nil {
 		t.Fatal(err)
 	}
+	if w.C, err = vfnMakeChain(rng, c14IDChained, crypto.DefaultSchemeID, []string{ports.Priv, dead1, dead2}, 2, 1*time.Second, 0, now-30); err != nil {
+		t.Fatal(err)
+	}
 	for _, x := range []struct {
 		c *vfnChain
 		g bool
-	}{{w.R, true}, {w.F, false}, {w.S, true}} {
+	}{{w.R, true}, {w.F, false}, {w.S, true}, {w.C, true}} {
 		if err := vfnWriteMember(dir, x.c, 0, x.g); err != nil {
 			t.Fatal(err)
 		}
@@ -1338,6 +1456,17 @@ func c14Body(t *testing.T, run *vfRun, cleanupsP *[]func()) {
 		if s%16 == 0 {
 			e.honestStep()
 		}
+	}
+	// a flood of valid partials from one member, on the running unchained chain and on a stalled chained chain
+	for _, f := range []struct {
+		c  *vfnChain
+		st string
+	}{{w.R, "running"}, {w.C, "stalled-chained"}} {
+		idx++
+		if doReplay && idx != replay {
+			continue
+		}
+		e.flood(idx, f.c, f.st, rng)
 	}
 	// production still moves (reported, not judged by wall-clock)
 	for i := 0; i < 40 && e.head() <= headStart+1; i++ {
